@@ -332,8 +332,9 @@ pub fn c02_cci() {
 	let v0 = rsx::val("v0");
 	let mut m = CCI::new(n, &v0).unwrap();
 	let mut hist = prehistory(v0, n as usize);
+	let pattern = rsx::param_str("shape");
 	for i in 0..t {
-		let x = rsx::val_i("x", i);
+		let x = shaped_input(&pattern, i, &hist);
 		hist.push(x);
 		let w = r_last(&hist, n as usize);
 		let mu = r_mean(w);
